@@ -152,7 +152,7 @@ Theorem charge_rg_grant d supi rg x st req used :
     g = Z.min (Z.max 0 (Z.min money (reqv_of req * cost_of x)) / cost_of x) (reqv_of req) /\
     m_fui mu = (money <? reqv_of req * cost_of x) /\
     cost_of x * g <= Z.max 0 (q_reserved st') /\
-    (exists b, bal d' supi rg = Some b /\ 0 <= b).
+    (exists b, bal d' supi rg = Some b /\ 0 <= b <= d_quota x).
 Proof.
   intros Hl Hm Hq0 [Hq HR Hu Hv Hc Hpu Hpr].
   change (2 ^ 61) with 2305843009213693952 in *. change (2 ^ 31) with 2147483648 in *.
